@@ -23,7 +23,7 @@ def all_combos():
 
 def run(ctx):
     ctx.rule = ("finite and complete over combinations: the REAL GeckoAsyncFacade and GeckoFacade are constructed on every platform x config x log combination of the "
-                "regenerated tables (895) and construction success is compared with Model/Facade.combo_ready; on blocks {zeros, all-ones, random, small-values, shipped "
+                "regenerated tables (895) and construction success is compared with Model/Facade.combo_ready; on blocks {zeros, all-ones, random, small-values, temperature words at 0xFFFF / extreme with all boolean flags off, shipped "
                 "snapshot when one exists} every public read-only member of the facade and of each device is evaluated (quick: a rotating third of the combinations for "
                 "the non-zero blocks, thorough: all); watercare rendering for all 256 mode bytes and None; reminder lists; non-trivial = every (combination, block)")
     ctx.prove(timeout=2400)
@@ -87,6 +87,41 @@ def run(ctx):
                     if bad:
                         ctx.fail("member:%s:%s:%s" % (c, l, bad[0][0]), "read-only member %s raises on %s / %s with output %s wired to %s" % (bad[0][0], c, l, acc.tag, lab),
                                  {"platform": p, "cfg": c, "log": l, "output": acc.tag, "label": lab, "raised": bad[:5]})
+                        break
+        # extreme readings with the flags off: every temperature word at 0xFFFF in an otherwise zero block; all-ones with every
+        # boolean item's byte cleared (so that the members fall through to the comparisons of the readings themselves)
+        if ready.get(("async", "zeros")) and (ctx.thorough or i % 6 == ctx.seed % 6):
+            try:
+                fac0, spa0 = facades.build_async_facade(p, c, l, blocks["zeros"])
+                tposs = [a.pos for a in spa0.accessors.values() if type(a).__name__ == "GeckoTempStructAccessor"]
+                bposs = [a.pos for a in spa0.accessors.values() if type(a).__name__ == "GeckoBoolStructAccessor"]
+            except Exception:  # noqa
+                tposs, bposs = [], []
+            b1 = bytearray(1024)
+            for q in tposs:
+                b1[q:q + 2] = b"\xff\xff"
+            b2 = bytearray(b"\xff" * 1024)
+            for q in bposs:
+                b2[q] = 0
+            b3 = bytearray(rng.randrange(256) for _ in range(1024))
+            for q in tposs:
+                b3[q:q + 2] = rng.choice([b"\xff\xff", b"\x00\x00", b"\xff\xfe", b"\x80\x00"])
+            for q in bposs:
+                b3[q] = 0
+            for bn, blk in (("temps_ffff", bytes(b1)), ("ones_flags_off", bytes(b2)), ("random_extreme_temps_flags_off", bytes(b3))):
+                for cls, fn in (("async", facades.build_async_facade), ("sync", facades.build_sync_facade)):
+                    ctx.count("extreme_reading_builds")
+                    try:
+                        fac, spa = fn(p, c, l, blk)
+                        bad = facades.eval_members(fac, cls == "async")
+                    except Exception as e:  # noqa
+                        ctx.fail("facade:%s:%s:%s" % (c, l, bn), "facade cannot be constructed on %s / %s on block %s (%s: %s)" % (c, l, bn, type(e).__name__, str(e)[:60]),
+                                 {"platform": p, "cfg": c, "log": l, "block": bn, "class": cls})
+                        break
+                    ctx.case((p, c, l, bn, cls))
+                    if bad:
+                        ctx.fail("member:%s:%s:%s" % (c, l, bad[0][0]), "read-only member %s raises on %s / %s on block %s: %s" % (bad[0][0], c, l, bn, bad[0][1]),
+                                 {"platform": p, "cfg": c, "log": l, "block": bn, "block_bytes": list(blk) if bn.startswith("random") else bn, "class": cls, "raised": bad[:5]})
                         break
         key = tuple(int(x) if x.isdigit() else x for x in (p, c.rsplit("-", 1)[1], l.rsplit("-", 1)[1]))
         if (p, int(c.rsplit("-", 1)[1]), int(l.rsplit("-", 1)[1])) in snaps:
